@@ -56,7 +56,8 @@ def build_world(prop, plan):
                     r = srv.sub('rule inm_%d_%d when cur%d=%d has %s has %s' % (u, v, u, v, tok(path + b' '), tok(b'If-None-Match: ' + tagform.encode())))
                     r.add('expect body'); r.add('send %s subst' % tok(cond_h))
             if url.get('lm'):
-                r = srv.sub('rule ims_%d_%d when cur%d=%d has %s has %s' % (u, v, u, v, tok(path + b' '), tok(b'If-Modified-Since: ' + lm_date(v).encode())))
+                # If-None-Match takes precedence: a request carrying it never gets a 304 on If-Modified-Since alone (RFC 9110 13.2.2)
+                r = srv.sub('rule ims_%d_%d when cur%d=%d has %s has %s nothas %s' % (u, v, u, v, tok(path + b' '), tok(b'If-Modified-Since: ' + lm_date(v).encode()), tok(b'If-None-Match:')))
                 r.add('expect body'); r.add('send %s subst' % tok(cond_h))
             rng = random.Random(u * 1000 + v)
             body = Payload(G(key, 0, size))
